@@ -3,6 +3,7 @@ CONSTANTS
   GseLenMax = 4095
   TotalLenMax = 65535
   Maxes = {0, 1, 2}
+  OutOfStep = FALSE
   Export = TRUE
   Depth = 3
 CONSTRAINT Bounded
